@@ -21,6 +21,9 @@ type MintDB interface {
 	GetPendingProofs(Ys []string) ([]DBProof, error)
 	GetPendingProofsByQuote(quoteId string) ([]DBProof, error)
 	RemovePendingProofs(Ys []string) error
+	// SettlePendingProofs atomically removes the proofs from pending
+	// and adds them to the used proofs
+	SettlePendingProofs(Ys []string) error
 
 	SaveMintQuote(MintQuote) error
 	GetMintQuote(string) (MintQuote, error)
